@@ -16,7 +16,7 @@ import ClientGoVerif.Model.Bytes
 namespace CGV.Mvcc
 open CGV
 
-abbrev TS := Nat
+scoped notation "TS" => Nat
 def maxU64 : Nat := 2 ^ 64 - 1
 /-- oracle.ExtractPhysical -/
 def physical (ts : TS) : Nat := ts / 2 ^ 18
